@@ -130,12 +130,12 @@ static inline bool tok_post_line(const console_t *c, const char *before)
 }
 
 /* ------------------------------------------------------------------------------------------- find_command
- * pre : TBL_INV; argv[0] points into the line buffer and CON_LAST_NUL (a NUL-terminated string inside it)
+ * pre : TBL_INV; argv[0] is the start of the line buffer (TOK post) and CON_LAST_NUL (a NUL-terminated string inside it)
  * post: c->cmd is the first table entry before the sentinel whose name equals argv[0] exactly, else the sentinel
  *       (what console_run relies on: c->cmd == cmd_table[k] for some k <= sentinel index: a valid descriptor)
  * frame: c->cmd
  */
-#define FIND_PRE(c) (tbl_inv() && con_line_off((c), (c)->argv[0]) >= 0 && CON_LAST_NUL(c))
+#define FIND_PRE(c) (tbl_inv() && (c)->argv[0] == (c)->scratch.buf && CON_LAST_NUL(c))
 static inline int ref_find(const char *name) /* exact-name lookup written from the statement */
 {
 	int s = tbl_sentinel();
